@@ -6,5 +6,5 @@ for i in 01 02 03 04 05 06 07 08 09 10 11 12 13 14 15 16 17 18; do
   s=$(date +%s)
   out=$(./check C$i --tier $T 2>&1); rc=$?
   e=$(date +%s)
-  echo "C$i rc=$rc $((e-s))s $(echo "$out" | grep -E '^(VIOLATION|HARNESS|KNOWN)' | head -2 | tr '\n' '|') $(echo "$out" | grep -E '^RESULT' | cut -c1-150)"
+  echo "C$i rc=$rc $((e-s))s $(echo "$out" | grep -E '^(VIOLATION|HARNESS|KNOWN|HarnessError|[A-Za-z]*Error)' | head -3 | cut -c1-600 | tr '\n' '|') $(echo "$out" | grep -E '^RESULT' | cut -c1-150)"
 done
